@@ -2,9 +2,26 @@
 import ScenicModel.Model.Interrupts
 namespace Scenic.Gen
 open Scenic.Interrupts
+/-- shape of runTryInterrupt / visit_TryInterrupt / generateInvocation / _checkAllPreconditions / _invokeInner -/
 def interruptCfg : Cfg :=
-  { condsReversed := true, handlersReversed := true, useEnabled := true, useRunning := true,
-    firstWins := true, finishedContinues := true, tiCheck := true, tiCheckSkipsSub := false,
-    checkAfterInvoke := true, checkBeforeInvoke := false, startPre := true, startInv := true,
-    stopInFinally := true, nestedFlow := false, nestedNames := false }
+  { condsReversed := false,
+    handlersReversed := false,
+    useEnabled := true,
+    useRunning := true,
+    firstWins := true,
+    finishedContinues := true,
+    tiCheck := true,
+    tiCheckSkipsSub := false,
+    checkAfterInvoke := true,
+    checkBeforeInvoke := false,
+    startPre := true,
+    startInv := true,
+    stopInFinally := true,
+    nestedFlow := false,
+    nestedNames := false }
+/-- the invariant re-check of runTryInterrupt and the check emitted by generateInvocation pass the agent -/
+def tiCheckPassesAgent : Bool := true
+/-- runTryInterrupt closes the blocks that are still suspended when it is left (otherwise their
+    finalisation, which stops their sub-behaviours, is left to the garbage collector) -/
+def abandonedBlocksClosed : Bool := false
 end Scenic.Gen
